@@ -614,6 +614,43 @@ def teardown_rule(res, fx):
            key='OWN-ID|%s|cow-exact' % g.q.split('<')[0],
            message='ImmutableHashtablePool::GetRefStatus reports REF_STATUS_INLRUCACHE without an exact GetRefCount() == 2 test: a table that other DataNodes still share is modified in place, so one '
                    'session\'s subscription mark appears on (or disappears from) nodes it never subscribed to, and can outlive the session')
+    # ---- RESET-COMPLETE: DataNode objects are recycled through an ObjectPool; Reset() (+ Init()) must restore every member that any other method can change,
+    # otherwise a node created for a later session inherits state from an unrelated, departed one
+    DNC = 'muscle::DataNode'
+    def written_fields(g):
+        out = set()
+        for n in g.walk():
+            tgt = None
+            if n['k'] in ('BinaryOperator', 'CompoundAssignOperator') and n.get('op') in A.ASSIGN_OPS:
+                tgt = A.strip_casts(n['ch'][0])
+            elif n['k'] == 'UnaryOperator' and (n.get('op', '').startswith('pre') or n.get('op', '').startswith('post')):
+                tgt = A.strip_casts(n['ch'][0])
+            elif n['k'] == 'CXXOperatorCallExpr' and (n.get('q') or '').endswith('::operator=') and len(n['ch']) >= 3:
+                tgt = A.strip_casts(n['ch'][1])
+            elif n['k'] == 'CXXMemberCallExpr' and not n.get('cm') and n.receiver() is not None and (n.get('q') or '').split('::')[-1] in ('Reset', 'Clear', 'SetRef'):
+                tgt = A.strip_casts(n.receiver())
+            elif n['k'] == 'CXXDeleteExpr' and n['ch']:
+                tgt = A.strip_casts(n['ch'][0])
+            if tgt is not None and tgt['k'] == 'MemberExpr' and tgt.get('dk') == 'Field' and A.is_this_member(tgt) and (tgt.get('q') or '').startswith(DNC + '::'):
+                out.add(tgt.get('n'))
+        return out
+    dn_methods = [g for g in fx.funcs.values() if g.full and g.cls == DNC]
+    reset_w = set()
+    others = {}
+    for g in dn_methods:
+        short = g.q.split('::')[-1]
+        if short in ('Reset', 'Init'):
+            reset_w |= written_fields(g)
+        elif short not in ('(ctor)', '(dtor)', 'operator='):
+            for fld in written_fields(g):
+                others.setdefault(fld, g.q)
+    if len(reset_w) < 5:
+        raise AnalysisBroken('RESET-COMPLETE: DataNode::Reset/Init write only %s' % sorted(reset_w))
+    for fld in sorted(others):
+        res.ob('TEARDOWN-PAIR', 'reflector/DataNode.cpp', 'DataNode::%s (changed by %s) is restored by Reset()/Init()' % (fld, others[fld].split('::')[-1]), fld in reset_w, function=DNC + '::Reset',
+               key='TEARDOWN-PAIR|%s::Reset|restores:%s' % (DNC, fld),
+               message='DataNode::%s is changed by %s but neither Reset() nor Init() restores it: DataNode objects are recycled through the node pool, so a node created for a later session starts with '
+                       'the value left by an unrelated, departed session (observable e.g. as generated child names that do not start at I0)' % (fld, others[fld]))
     from . import srs_shared as SS
     SS.subscribe_traversal_nofilter_rule(res, fx, 'TEARDOWN-PAIR')
     SS.lameduck_same_end_rule(res, fx, 'TEARDOWN-PAIR')
